@@ -2,6 +2,10 @@ import Mdsort.Proofs.WorldOwn
 import Mdsort.Proofs.PartiesWinner
 import Mdsort.Proofs.PartiesExactly
 import Mdsort.Proofs.PartiesWitness
+import Mdsort.Proofs.PartiesCopyWitness
+import Mdsort.Proofs.PartiesClient
+import Mdsort.Proofs.PartiesReaddirWitness
+import Mdsort.Proofs.PartiesCopyLoser
 
 /-!
 # C17 - concurrent runs on the same maildirs neither lose nor duplicate messages
@@ -37,6 +41,16 @@ theorem C17_loser_reports_error (env : PEnv) (mh : Match) (st : ExecSt) (orc : N
     (runOracle orc (execOne env mh st) 0 []).1.2 = true :=
   Proofs.lost_race_is_error env mh st orc hty hlost
 
+/-- ... for the copying actions too: a move / flag / flags (also across devices: `EXDEV`, copy, `unlinkat` of the
+source) / label / add-header action all of whose renames fail and all of whose `unlinkat` of the message's own name
+fail (the source is gone) returns error = true. -/
+theorem C17_copy_loser_reports_error (env : PEnv) (mh : Match) (st : ExecSt) (orc : Nat → Call → Res)
+    (hty : mh.ty = .move ∨ mh.ty = .flag ∨ mh.ty = .flags ∨ mh.ty = .label ∨ mh.ty = .addHeader)
+    (hren : ∀ i d1 n1 d2 n2, ∃ e, orc i (.renameat d1 n1 d2 n2) = .err e)
+    (hunl : ∀ i d, ∃ e, orc i (.unlinkat d st.ms.name) = .err e) :
+    (runOracle orc (execOne env mh st) 0 []).1.2 = true :=
+  Proofs.lost_race_is_error_all env mh st orc hty hren hunl
+
 /-! ## several parties on one file system, all schedules -/
 
 /-- Single winner.  For every entry `x` (directory, name) - in particular the source name of a
@@ -66,6 +80,25 @@ theorem C17_loser_in_schedule_reports_error (s0 : Shared) (hf : Proofs.Parties.F
       ps.trace[i]? = some (Call.renameat d1 n1 d2 n2, r) → r = Res.err "ENOENT")
     (e : Bool) (hfin : ps.prog = .ret e) : e = true :=
   Proofs.Parties.loser_reports_error s0 hf sched a p0 ps env mh rest st h0 hp hty hs hlost e hfin
+
+/-- The same for every delivering first action, the copying ones included: all renames of the party failed and all
+its `unlinkat` of the message's name failed => it finishes with error = true. -/
+theorem C17_copy_loser_in_schedule_reports_error (s0 : Shared) (hf : Proofs.Parties.Fresh s0) (sched : List Nat) (a : Nat)
+    (p0 ps : PState) (env : PEnv) (mh : Match) (rest : MatchList) (st : ExecSt)
+    (h0 : s0.parties[a]? = some p0) (hp : p0.prog = errOf (matchesExec env (mh :: rest) st))
+    (hty : mh.ty = .move ∨ mh.ty = .flag ∨ mh.ty = .flags ∨ mh.ty = .label ∨ mh.ty = .addHeader)
+    (hs : (runSched s0 sched).parties[a]? = some ps)
+    (hren : ∀ (i : Nat) (d1 : Handle) (n1 : Bytes) (d2 : Handle) (n2 : Bytes) (r : Res),
+      ps.trace[i]? = some (Call.renameat d1 n1 d2 n2, r) → ∃ e, r = Res.err e)
+    (hunl : ∀ (i : Nat) (d : Handle) (r : Res), ps.trace[i]? = some (Call.unlinkat d st.ms.name, r) → ∃ e, r = Res.err e)
+    (e : Bool) (hfin : ps.prog = .ret e) : e = true :=
+  Proofs.Parties.loser_reports_error_all s0 hf sched a p0 ps env mh rest st h0 hp hty hs hren hunl e hfin
+
+open Proofs.Parties.W in
+/-- Non-vacuity: in the round-robin run of `label` against `move` (below), the `label` party is such a loser (its
+`unlinkat` of `a` failed, it has no rename) and finished with error = true; the mover is not. -/
+example : ((runSched c0 schedRR).parties.map fun ps => (lostTrace (ofString "a") ps.trace, ps.result)) =
+    [(true, some true), (false, some false)] := rr_loser
 
 /-- `C17_never_touches_foreign` on schedules: whatever the other parties and the client do in
 between, every `unlinkat` argument and `renameat` source of an mdsort party is the name of the
@@ -117,6 +150,103 @@ example : (∀ e ∈ (runSched m0 schedM).log, e.binds (ofString "/m/new", ofStr
   have := List.all_eq_true.1 m_norebind e he
   simpa using this
 
+/-! ## exactly once for EVERY action kind and for listing parties, under `H_iso` -/
+
+/-- Exactly once under `H_iso`, for ANY number of parties, each of which is
+* an mdsort run executing ANY action list of the sequential model on one message (`errOf (matchesExec ..)`:
+  move on one device, move across devices (copy + unlink), flag, flags, label, add-header, discard, exec with or
+  without a temporary file), or
+* an mdsort run that lists a directory and executes the action list its rules give for every name (`scanExec`), or
+* the external client (renames and unlinks),
+on EVERY complete schedule that respects `H_iso` (`Hiso`: no `unlinkat` and no `renameat` removes or replaces an
+entry another party created and has neither committed nor rolled back, and no party renames such an entry of
+its own as if it were a message; nothing is asked of exclusive creates, `readdir`, or any other call).
+`M` is any set of messages containing the ones the parties hold (`StartOKc`).  `origin g` is the initial file
+`g` descends from through the copy commits of the history (`originIn`).  Then at quiescence:
+1. every initial file `f0`, unless a version of it was removed outright (`Event.destroysRoot`: a successful
+   `discard` or delete by a party with no copy in flight, or another file renamed onto it), has EXACTLY ONE
+   entry holding a version of it;
+2. every entry descends from an initial file and holds either that very file with its initial content, or a
+   file created during the run whose content is a COMPLETE message `(messageWrite m).1` of some `m ∈ M` written
+   by a party (no placeholder, no empty or partial file remains in any directory);
+3. no file is bound to two entries. -/
+theorem C17_exactly_once_partial (M : Msg → Prop) (s0 : Shared) (h0 : Proofs.Parties.StartOKc M s0) (sched : List Nat)
+    (hiso : Hiso s0 sched = true) (hq : (runSched s0 sched).quiescent = true) :
+    (∀ p0 n0 f0, s0.fs.lookup p0 n0 = some f0 → (∀ e ∈ (runSched s0 sched).log, e.destroysRoot f0 = false) →
+      ∃ p n g, (runSched s0 sched).fs.lookup p n = some g ∧ (runSched s0 sched).origin g = f0 ∧
+        ∀ p' n' g', (runSched s0 sched).fs.lookup p' n' = some g' → (runSched s0 sched).origin g' = f0 → p' = p ∧ n' = n) ∧
+    (∀ p n g, (runSched s0 sched).fs.lookup p n = some g →
+      (∃ p0 n0, s0.fs.lookup p0 n0 = some ((runSched s0 sched).origin g)) ∧
+      ((g = (runSched s0 sched).origin g ∧ (runSched s0 sched).fs.file g = s0.fs.file g) ∨
+       (s0.fs.nextFid ≤ g ∧ ∃ m f, M m ∧ (runSched s0 sched).fs.file g = some f ∧ f.data = (messageWrite m).1))) ∧
+    (∀ p n p' n' g, (runSched s0 sched).fs.lookup p n = some g → (runSched s0 sched).fs.lookup p' n' = some g → p = p' ∧ n = n') :=
+  Proofs.Parties.exactly_once_copy s0 h0 sched hiso hq
+
+/-! ### non-vacuity: `label` against `move` on the same message, interleaved call by call -/
+
+open Proofs.Parties.W in
+/-- Round robin: B's `renameat` comes first, B wins; A's `unlinkat` of the original gets `ENOENT`, A removes its
+complete copy again and reports an error.  The message is in `/d/new`, once, with its initial content. -/
+example : Proofs.Parties.StartOKc MW c0 ∧ Hiso c0 schedRR = true ∧ (runSched c0 schedRR).quiescent = true ∧
+    (runSched c0 schedRR).parties.map (·.result) = [some true, some false] ∧
+    (runSched c0 schedRR).fs.entries = [(ofString "/d/new", ofString "7.2_1.h:2,", 0)] ∧
+    (runSched c0 schedRR).fs.content 0 = content :=
+  ⟨c_startOK, rr_facts⟩
+
+open Proofs.Parties.W in
+/-- A is ahead and commits before B's `renameat`: A wins, B gets `ENOENT`, removes its placeholder and reports
+an error.  The only entry is A's new name; it holds the complete labelled message and descends from file 0. -/
+example : Proofs.Parties.StartOKc MW c0 ∧ Hiso c0 schedAB = true ∧ (runSched c0 schedAB).quiescent = true ∧
+    (runSched c0 schedAB).parties.map (·.result) = [some false, some true] ∧
+    (runSched c0 schedAB).fs.entries = [(ofString "/m/new", nameA, 1)] ∧
+    (runSched c0 schedAB).fs.content 1 = labelledBytes ∧
+    (runSched c0 schedAB).origin 1 = 0 :=
+  ⟨c_startOK, ab_facts⟩
+
+/-! ## the external client needs no isolation hypothesis -/
+
+/-- The external client interleaved anywhere: `H_iso` is asked of the steps of the mdsort parties only
+(`HisoExcept cl`), nothing of the steps of the parties `cl`, provided these are clients whose operations
+mention no name of `N`, where `N` contains every name the mdsort processes of the run can generate
+(`GenNames N env`: `now.pid_count.host` + flags, for every counter value).  Then the conclusion of
+`C17_exactly_once_partial` holds. -/
+theorem C17_external_client (M : Msg → Prop) (N : Bytes → Prop) (cl : List Nat) (s0 : Shared)
+    (h0 : Proofs.Parties.StartOKc M s0)
+    (hgen : ∀ (i : Nat) (ps : PState), s0.parties[i]? = some ps → i ∉ cl →
+      (∃ env ml st, Proofs.Parties.GenNames N env ∧ ps.prog = errOf (matchesExec env ml st)) ∨
+      (∃ env md rule fuel e, Proofs.Parties.GenNames N env ∧ ps.prog = scanExec env md rule fuel e))
+    (hcl : ∀ (i : Nat) (ps : PState), i ∈ cl → s0.parties[i]? = some ps → ∃ ops, ps.prog = clientProg ops ∧ ∀ op ∈ ops, op.avoids N)
+    (sched : List Nat) (hiso : HisoExcept cl s0 sched = true) (hq : (runSched s0 sched).quiescent = true) :
+    Hiso s0 sched = true ∧
+    (∀ p0 n0 f0, s0.fs.lookup p0 n0 = some f0 → (∀ e ∈ (runSched s0 sched).log, e.destroysRoot f0 = false) →
+      ∃ p n g, (runSched s0 sched).fs.lookup p n = some g ∧ (runSched s0 sched).origin g = f0 ∧
+        ∀ p' n' g', (runSched s0 sched).fs.lookup p' n' = some g' → (runSched s0 sched).origin g' = f0 → p' = p ∧ n' = n) ∧
+    (∀ p n g, (runSched s0 sched).fs.lookup p n = some g →
+      (∃ p0 n0, s0.fs.lookup p0 n0 = some ((runSched s0 sched).origin g)) ∧
+      ((g = (runSched s0 sched).origin g ∧ (runSched s0 sched).fs.file g = s0.fs.file g) ∨
+       (s0.fs.nextFid ≤ g ∧ ∃ m f, M m ∧ (runSched s0 sched).fs.file g = some f ∧ f.data = (messageWrite m).1))) ∧
+    (∀ p n p' n' g, (runSched s0 sched).fs.lookup p n = some g → (runSched s0 sched).fs.lookup p' n' = some g → p = p' ∧ n = n') := by
+  have hH : Hiso s0 sched = true := by
+    refine Proofs.Parties.hiso_of_except (N := N) cl s0 h0.fresh ?_ hcl sched hiso
+    intro i ps hp
+    by_cases hi : i ∈ cl
+    · obtain ⟨ops, hprog, _⟩ := hcl i ps hi hp
+      rw [hprog]; exact Proofs.Parties.nq_clientProg ops
+    · rcases hgen i ps hp hi with ⟨env, ml, st, hN, hprog⟩ | ⟨env, md, rule, fuel, e, hN, hprog⟩
+      · rw [hprog]; exact Proofs.Parties.nq_errOf _ (Proofs.Parties.nq_matchesExec env hN ml st)
+      · rw [hprog]; exact Proofs.Parties.nq_scanExec env hN md rule fuel e
+  exact ⟨hH, Proofs.Parties.exactly_once_copy s0 h0 sched hH hq⟩
+
+open Proofs.Parties.W in
+/-- Non-vacuity: the two movers racing for `a` and the client renaming `b` (party 2), round robin; isolation is
+asked of the movers only, the client's names `b`, `b:2,S` are outside the generated names `7.<pid>_<count>.h...`. -/
+example : Proofs.Parties.StartOKc MW m0 ∧ HisoExcept [2] m0 schedM = true ∧ (runSched m0 schedM).quiescent = true ∧
+    (∀ (i : Nat) (ps : PState), m0.parties[i]? = some ps → i ∉ [2] →
+      (∃ env ml st, Proofs.Parties.GenNames NW env ∧ ps.prog = errOf (matchesExec env ml st)) ∨
+      (∃ env md rule fuel e, Proofs.Parties.GenNames NW env ∧ ps.prog = scanExec env md rule fuel e)) ∧
+    (∀ (i : Nat) (ps : PState), i ∈ [2] → m0.parties[i]? = some ps → ∃ ops, ps.prog = clientProg ops ∧ ∀ op ∈ ops, op.avoids NW) :=
+  ⟨m_startOKc, m_isoExcept, m_quiescent, m_gen, m_client⟩
+
 /-! ## the full statement, without `H_iso`, is false (F14) -/
 
 /-- An mdsort party: an action list on one message, or a directory listing followed by the action
@@ -148,6 +278,25 @@ def C17_exactly_once : Prop :=
   ∀ (s0 : Shared) (sched : List Nat), C17Start s0 → (runSched s0 sched).quiescent = true →
     ExactlyOnce s0 (runSched s0 sched)
 
+theorem c17start_witness : C17Start Proofs.Parties.W.s0 := by
+  open Proofs.Parties.W in
+  refine ⟨Proofs.Parties.fresh_init _ _, ?_, ?_, ?_⟩
+  · intro ps hps
+    simp only [s0, Shared.init, List.map_cons, List.map_nil, List.mem_cons, List.not_mem_nil, or_false] at hps
+    rcases hps with rfl | rfl | rfl <;> exact .inl (.inl ⟨_, _, _, rfl⟩)
+  · show (fs.shared.entries).Pairwise _
+    decide +kernel
+  · intro ps hps d p hd
+    simp only [s0, Shared.init, List.map_cons, List.map_nil, List.mem_cons, List.not_mem_nil, or_false] at hps
+    have hh : ps.handles = dirH := by rcases hps with rfl | rfl | rfl <;> rfl
+    rw [hh] at hd
+    have hp : p = ofString "/m/new" := by
+      match d, hd with
+      | 0, hd => simpa [handlesDirPath, dirH] using hd.symm
+      | d + 1, hd => simp [handlesDirPath, dirH] at hd
+    subst hp
+    decide +kernel
+
 open Proofs.Parties.W in
 /-- F14: A = `label` on the message `new/a`, B1 = `move` of `a`, B2 = `move` of the name A created
 (what a listing of `new/` shows while A is at work); A runs up to and including its `fsync`, then
@@ -156,23 +305,7 @@ error).  Both the original and A's labelled copy end up in `/d/new`: the message
 The parties are the scripts themselves (`matchesExec`), evaluated by the kernel. -/
 theorem C17_exactly_once_false : ¬ C17_exactly_once := by
   intro h
-  have hstart : C17Start s0 := by
-    refine ⟨Proofs.Parties.fresh_init _ _, ?_, ?_, ?_⟩
-    · intro ps hps
-      simp only [s0, Shared.init, List.map_cons, List.map_nil, List.mem_cons, List.not_mem_nil, or_false] at hps
-      rcases hps with rfl | rfl | rfl <;> exact .inl (.inl ⟨_, _, _, rfl⟩)
-    · show (fs.shared.entries).Pairwise _
-      decide +kernel
-    · intro ps hps d p hd
-      simp only [s0, Shared.init, List.map_cons, List.map_nil, List.mem_cons, List.not_mem_nil, or_false] at hps
-      have hh : ps.handles = dirH := by rcases hps with rfl | rfl | rfl <;> rfl
-      rw [hh] at hd
-      have hp : p = ofString "/m/new" := by
-        match d, hd with
-        | 0, hd => simpa [handlesDirPath, dirH] using hd.symm
-        | d + 1, hd => simp [handlesDirPath, dirH] at hd
-      subst hp
-      decide +kernel
+  have hstart : C17Start s0 := c17start_witness
   have hone := ((h s0 sched hstart run_quiescent).1 (ofString "/m/new", ofString "a", 0) (by decide +kernel)).1
   have hc : s0.fs.content 0 = content := by decide +kernel
   rw [show ((ofString "/m/new", ofString "a", 0) : Bytes × Bytes × Nat).2.2 = 0 from rfl, hc, run_dup] at hone
@@ -203,5 +336,49 @@ theorem C17_F13_empty_stray :
 open Proofs.Parties.W in
 /-- `H_iso` is what the counterexample of `C17_exactly_once_false` violates. -/
 theorem C17_F14_not_isolated : Hiso s0 sched = false := run_not_iso
+
+/-! ## `H_iso` from what directory listings return -/
+
+/-- The implication without side conditions: if no `readdir` returns a name another party has in flight, the
+schedule respects `H_iso`. -/
+def C17_hisoReaddir_implies_hiso_unrestricted : Prop :=
+  ∀ (s0 : Shared) (sched : List Nat), C17Start s0 → HisoReaddir s0 sched = true → Hiso s0 sched = true
+
+open Proofs.Parties.W in
+/-- It is false: a party need not have its names from a listing.  In the F14 schedule of `C17_exactly_once_false`
+the three parties are handed their names (one of them the name another has in flight) and nobody calls
+`readdir` at all. -/
+theorem C17_hisoReaddir_implies_hiso_unrestricted_false : ¬ C17_hisoReaddir_implies_hiso_unrestricted := by
+  intro h
+  have := h s0 sched c17start_witness run_readdir_iso
+  rw [run_not_iso] at this
+  cases this
+
+/-- `H_iso` from the results of `readdir`, with name spaces.  `N i` contains every name party `i` can generate
+(`GenNames`), the name spaces are pairwise disjoint (the processes differ in pid or host), and every party is
+* a listing run (`scanExec`) whose rules name the message after the directory entry, or
+* a run on one message whose given name is in no other party's name space, or
+* a client that mentions no name of any name space.
+If no `readdir` of a party returns a name of ANOTHER party's name space (`HisoReaddirNS`) and no party renames
+a name it has in flight itself (`HisoOwn`, the purely local clause of `H_iso`: `maildir_genname` regenerating the
+very name of the message being moved), then the schedule respects `H_iso`; and `HisoReaddirNS` implies the
+isolation stated on names in flight (`HisoReaddir`). -/
+theorem C17_hisoReaddir_implies_hiso (N : Nat → Bytes → Prop) (hdisj : ∀ i j n, i ≠ j → N i n → ¬ N j n) (s0 : Shared)
+    (hf : Proofs.Parties.Fresh s0)
+    (hp : ∀ (i : Nat) (ps : PState), s0.parties[i]? = some ps → Proofs.Parties.ReaddirParty N i ps)
+    (sched : List Nat) (hrd : HisoReaddirNS N s0 sched) (hown : HisoOwn s0 sched = true) :
+    Hiso s0 sched = true ∧ HisoReaddir s0 sched = true :=
+  ⟨Proofs.Parties.hiso_of_readdirNS N hdisj s0 hf hp sched hrd hown, Proofs.Parties.hisoReaddir_of_NS N s0 hf hp sched hrd⟩
+
+open Proofs.Parties.W in
+/-- Non-vacuity: A = `label` on `a` (handed the name), B = LISTS `/m/new` and moves every name to `/d`; B takes
+its listing first, then the two alternate call by call; B's `renameat` precedes A's `unlinkat`: B wins, A rolls
+its complete copy back and reports an error. -/
+example : (∀ i j n, i ≠ j → NS i n → ¬ NS j n) ∧ Proofs.Parties.Fresh r0 ∧
+    (∀ (i : Nat) (ps : PState), r0.parties[i]? = some ps → Proofs.Parties.ReaddirParty NS i ps) ∧
+    HisoReaddirNS NS r0 schedR ∧ HisoOwn r0 schedR = true ∧ (runSched r0 schedR).quiescent = true ∧
+    (runSched r0 schedR).parties.map (·.result) = [some true, some false] ∧
+    (runSched r0 schedR).fs.entries = [(ofString "/d/new", ofString "7.2_1.h:2,", 0)] :=
+  ⟨ns_disj, Proofs.Parties.fresh_init _ _, r_parties, r_ns0, r_own0, r_facts⟩
 
 end Mdsort.Props
